@@ -247,15 +247,20 @@ type seqP struct {
 
 func checkSeq(p seqP) *mc.Viol {
 	seed, blind, msg := unhx(p.Seed), unhx(p.Blind), unhx(p.Msg)
+	// ONE key object, one blind and one message buffer are used for the whole sequence, as a caller
+	// would; the reference values come from private copies
 	priv := ed.NewKeyFromSeed(fresh(seed))
+	stdPriv := stded.NewKeyFromSeed(fresh(seed))
 	A := fresh(priv[32:])
+	blindBuf, msgBuf := fresh(blind), fresh(msg)
+	first := map[string][]byte{}
 	for i, c := range p.Ctxs {
 		where := fmt.Sprintf("seed=%s blind=%s step %d of contexts %+v", p.Seed, p.Blind, i, p.Ctxs)
 		var sig []byte
 		var bk ed.PublicKey
 		var err error
 		if pn := mc.Catch(func() {
-			sig = ed.BlindKeySignWithContext(fresh(priv), fresh(msg), fresh(blind), c.bytes())
+			sig = ed.BlindKeySignWithContext(priv, msgBuf, blindBuf, c.bytes())
 			bk, err = ed.BlindPublicKeyWithContext(fresh(A), fresh(blind), c.bytes())
 		}); pn != "" {
 			return &mc.Viol{Sig: "BlindKeySignWithContext panics in a sequence of calls", What: where + ": " + pn}
@@ -263,9 +268,25 @@ func checkSeq(p seqP) *mc.Viol {
 		if err != nil {
 			return &mc.Viol{Sig: "BlindPublicKeyWithContext fails in a sequence of calls", What: where + ": " + err.Error()}
 		}
-		if !stded.Verify(stded.PublicKey(bk), msg, sig) {
-			return &mc.Viol{Sig: "blinded signature depends on what was signed before (does not verify under the blinded key after an earlier call with another context)", What: where}
+		if !bytes.Equal(priv, stdPriv) || !bytes.Equal(blindBuf, blind) || !bytes.Equal(msgBuf, msg) {
+			return &mc.Viol{Sig: "BlindKeySignWithContext changes the key, blind or message it was given", What: fmt.Sprintf("%s: private key now %x", where, []byte(priv))}
 		}
+		if !stded.Verify(stded.PublicKey(bk), msg, sig) {
+			return &mc.Viol{Sig: "blinded signature depends on what was signed before (does not verify under the blinded key after earlier calls with the same key object)", What: where}
+		}
+		k := fmt.Sprintf("%v/%s", c.Nil, c.Hex)
+		if prev, ok := first[k]; ok && !bytes.Equal(prev, sig) {
+			return &mc.Viol{Sig: "blind signing is not deterministic: the same key, blind, context and message give another signature later in a sequence", What: where}
+		}
+		first[k] = fresh(sig)
+	}
+	// the key object still signs like crypto/ed25519
+	var plain []byte
+	if pn := mc.Catch(func() { plain = ed.Sign(priv, msgBuf) }); pn != "" {
+		return &mc.Viol{Sig: "Sign panics after blind signatures with the same key object", What: pn}
+	}
+	if !bytes.Equal(plain, stded.Sign(stdPriv, msg)) {
+		return &mc.Viol{Sig: "Sign after blind signatures with the same key object differs from crypto/ed25519", What: fmt.Sprintf("seed=%s contexts %+v", p.Seed, p.Ctxs)}
 	}
 	return nil
 }
